@@ -1,5 +1,4 @@
 package memefish
 
 // placeholders until the corresponding harness files exist
-func verifC17Parsed(x string, entry int) {}
 func verifC18(x string, entry int)       {}
